@@ -5,13 +5,14 @@ from harness.core import pool, tb
 from harness.gen import systems
 from harness.props import _shared
 
-PROOF_MODULE = ["OdeVerif.Proofs.C08", "OdeVerif.Proofs.RefinePropagator", "OdeVerif.Proofs.RefineParams"]
-GENERATED = ["PyPropagator", "PyParams"]
+PROOF_MODULE = ["OdeVerif.Proofs.C08", "OdeVerif.Proofs.RefinePropagator", "OdeVerif.Proofs.RefineParams", "OdeVerif.Proofs.RefineGlue"]
+GENERATED = ["PyPropagator", "PyParams", "PyGlue", "PyInitialValues"]
 THEOREMS = ["OdeVerif.C08.rowSymbols_closed", "OdeVerif.C08.used_propagators_defined", "OdeVerif.C08.diag_propagator_defined",
             "OdeVerif.C08.one_row_per_variable", "OdeVerif.C08.stateName_injective", "OdeVerif.C08.initialValue_found",
             "OdeVerif.C08.listed_iff_referenced", "OdeVerif.C08.prefix_filter_misses_initial_values",
             "OdeVerif.Refine.propagatorSolver_error_iff", "OdeVerif.Refine.propagatorSolver_ok", "OdeVerif.Refine.propagatorSolver_ok_of_model",
-            "OdeVerif.Refine.parameterFilter_refines", "OdeVerif.Refine.parameterFilter_none"]
+            "OdeVerif.Refine.parameterFilter_refines", "OdeVerif.Refine.parameterFilter_none",
+            "OdeVerif.Refine.shapeGetInitialValue_refines", "OdeVerif.Refine.shapeGetStateVariables_refines", "OdeVerif.Refine.systemGetInitialValue_refines", "OdeVerif.Refine.initialValueCopy_refines", "OdeVerif.Refine.ivOut_keys", "OdeVerif.Refine.ivOut_value", "OdeVerif.Refine.ivOut_keys_nodup"]
 LEVEL = "proof"
 FUNCS = [("I_f", "exp(-t/tau_s)"), ("I_f", "(e/tau)*t*exp(-t/tau)")]
 
@@ -71,6 +72,7 @@ def run(ctx, driver):
             ctx.fail("dictionary-" + p0["what"].replace(" ", "-")[:60], {"indict": case["indict"], "flags": case["flags"]},
                      {"problems": res["problems"][:5], "signature": {"what": p0["what"], "only_iv": p0.get("referenced_only_by_initial_values")}})
     ctx.sample({"indict": cases[-1]["indict"], "result_kinds": results[-1].get("kinds") if isinstance(results[-1], dict) else None})
+    _shared.corr_glue(ctx, driver, cases, results, parts=("iv",))
     ctx.assumptions += [
         "naming hypothesis: no two (row, column) pairs print to the same __P__<row>__<col> string (false only for contrived variable names such as g__g next to g); stated in the theorems, not met by the generators",
         "numeric equality of listed parameter values and of initial values is checked by evaluation (SymPy's .n() and str are contracts)",
